@@ -25,7 +25,7 @@ TEXT['C17'] = dict(
   technique='constant-table bound: per-position maxima of NFKD and NFC word lengths summed over 16 positions + separators vs the compiled sizeof(polyseed_str)',
   level_text='The worst case over all 2048^16 index combinations is the sum of per-position maxima, computed exactly from the tables in the IR for both the decomposed form (internal temporary written by the unguarded writer) and the composed form (caller\'s buffer) and compared with the size the typedef is compiled with: a complete proof of the inequality for every seed, coin and language.',
   level_note='Uses the unrestricted per-position maximum (sound; tight within one word). Trusted: IR constant extraction, Python unicodedata. The link "the writer is called exactly 16+15 times on a polyseed_str" and the returned-length clause are structural/bitflow rules (added when built). An injected NFC that lies about its length is out of scope.')
-for _p in ('C01', 'C02', 'C03', 'C06'):
+for _p in ('C01', 'C02', 'C03', 'C04', 'C05', 'C06', 'C09', 'C10', 'C12', 'C13'):
     TEXT[_p] = dict(technique='bit-provenance abstract interpretation of LLVM IR (affine forms over named input bits, trace partitioning with exact affine merge) + table rules',
                     level_text='see DESIGN.md section 4 (to be refined)', level_note='see DESIGN.md section 4')
 NOT_APPLICABLE = {}
